@@ -13,7 +13,7 @@ From AGH Require Import Model.Writers Gen.Writers.
 Import ListNotations.
 Definition bad := filter (fun w => negb (writer_ok w)) writers.
 Definition over := filter (fun e => negb (count_ok writers e)) (exceptions ++ other_files).
-Definition missing := filter (fun e => match e with (f, fn, c) => negb (has_call writers f fn c) end) expected_sites.
+Definition missing := filter (fun e => negb (site_present writers e)) expected_sites.
 Eval vm_compute in (map (fun w => (w_file w, w_line w, w_func w, w_callee w, w_kind w)) bad).
 Eval vm_compute in (map (fun e => match e with (f, fn, c, n, _) => (f, fn, c, n) end) over).
 Eval vm_compute in missing.
@@ -38,7 +38,7 @@ def writers_report(ctx):
     blocks = [" ".join(b.replace("%string", "").replace("%N", "").split()) for b in re.split(r"^\s*= ", out, flags=re.M)[1:]]
     bad = re.findall(r'\("([^"]*)", (\d+), "([^"]*)", "([^"]*)", (K\w+)\)', blocks[0]) if blocks else []
     over = re.findall(r'\("([^"]*)", "([^"]*)", "([^"]*)", (\d+)', blocks[1]) if len(blocks) > 1 else []
-    missing = re.findall(r'\("([^"]*)", "([^"]*)", "([^"]*)"\)', blocks[2]) if len(blocks) > 2 else []
+    missing = re.findall(r'\("([^"]*)", "([^"]*)", (\d+)\)', blocks[2]) if len(blocks) > 2 else []
     k = 0
     for fl, line, fn, callee, kind in bad:
         k += 1
@@ -52,12 +52,12 @@ def writers_report(ctx):
         ctx.fail("property-failure", "more %s calls in %s (%s) than the %s listed as excused" % (callee, fn, fl, n),
                  finding_key="writers-count-%s-%s-%s" % (fl, fn, callee), failing_input_found=True,
                  detail={"case": {"id": 9000 + k, "desc": {"file": fl, "function": fn, "callee": callee, "allowed": int(n)}}})
-    for fl, fn, callee in missing:
+    for fl, callee, n in missing:
         k += 1
-        ctx.fail("property-failure", "the save path %s in %s (%s) is no longer found by the scanner: it was removed, renamed or "
-                 "rewritten with other calls" % (callee, fn, fl),
-                 finding_key="writers-missing-%s-%s-%s" % (fl, fn, callee), failing_input_found=True,
-                 detail={"case": {"id": 9000 + k, "desc": {"file": fl, "function": fn, "callee": callee}}})
+        ctx.fail("property-failure", "fewer than %s calls of %s are found in %s: a save path was removed or rewritten with other calls"
+                 % (n, callee, fl),
+                 finding_key="writers-missing-%s-%s" % (fl, callee), failing_input_found=True,
+                 detail={"case": {"id": 9000 + k, "desc": {"file": fl, "callee": callee, "expected_at_least": int(n)}}})
     return k
 
 
